@@ -307,6 +307,11 @@ def _delta_arrays(ctx):
     from ..idioms import check_delta_arrays
     check_delta_arrays(ctx, ["bionumpy.io.strops", "bionumpy.io.file_buffers", "bionumpy.io.dump_csv"], "C18-R7")
 
+def _copy_copies(ctx):
+    from .c07 import r2_operands_encoded
+    with ctx.only(".copy"):
+        r2_operands_encoded(ctx)           # str_to_int overwrites signs on number_text.copy(): the copy must not share the caller's buffer
+
 RULES = [
     ("C18-R1", r1_formatting),
     ("C18-R2", r2_parsing),
@@ -317,4 +322,5 @@ RULES = [
     ("C18-T1", _through_time),
     ("C18-T2", _small_edits),
     ("C18-R7", _delta_arrays),
+    ("C18-R8", _copy_copies),
 ]
